@@ -4,7 +4,7 @@
 use crate::rng::Rng;
 use crate::{odsw, xlsbw, xlsw, xlsxw};
 use calamine::{Data, Ods, Reader, Sheets, Xls, Xlsb, Xlsx};
-use std::collections::BTreeMap;
+use std::collections::{BTreeMap, BTreeSet};
 use std::io::Cursor;
 
 #[derive(Clone, Debug, PartialEq)]
@@ -37,6 +37,9 @@ pub struct LSheet {
     pub no_rel: bool,
     /// xlsx only: shared-formula groups
     pub shared: Vec<SharedGroup>,
+    /// positions stored WITHOUT a value (a styled blank cell: xls BLANK, xlsx `<c r= s=/>`, xlsb BrtCellBlank, ods an
+    /// empty `table:table-cell`): present in the file, never a value, never part of the used range
+    pub blanks: BTreeSet<(u32, u32)>,
 }
 
 /// One xlsx shared-formula group: the cells `members` (in document order) carry `<f t="shared" si=…>`; the one at
@@ -122,6 +125,12 @@ pub fn write(book: &LBook, fmt: Fmt, rng: &mut Rng) -> Vec<u8> {
                     };
                     sh.cells.push(xlsw::XlsCell::new(*r as u16, *c as u16, cv));
                 }
+                for (r, c) in &s.blanks {
+                    if !s.cells.contains_key(&(*r, *c)) {
+                        sh.cells.push(xlsw::XlsCell::new(*r as u16, *c as u16, xlsw::CellV::Blank));
+                    }
+                }
+                sh.cells.sort_by_key(|c| (c.row, c.col));
                 b.sheets.push(sh);
             }
             b.to_bytes(rng)
@@ -153,6 +162,11 @@ pub fn write(book: &LBook, fmt: Fmt, rng: &mut Rng) -> Vec<u8> {
                         cell = cell.with_formula(f);
                     }
                     sh.set(*r, *c, cell);
+                }
+                for (r, c) in &s.blanks {
+                    if !s.cells.contains_key(&(*r, *c)) {
+                        sh.set(*r, *c, xlsxw::XCell::new(xlsxw::XVal::Empty));
+                    }
                 }
                 for g in &s.shared {
                     let (r0, c0) = *g.members.iter().min().unwrap();
@@ -194,6 +208,11 @@ pub fn write(book: &LBook, fmt: Fmt, rng: &mut Rng) -> Vec<u8> {
                     };
                     sh.set(*r, *c, bv);
                 }
+                for (r, c) in &s.blanks {
+                    if !s.cells.contains_key(&(*r, *c)) {
+                        sh.set(*r, *c, xlsbw::BVal::Blank);
+                    }
+                }
                 b.sheets.push(sh);
             }
             b.to_bytes()
@@ -203,9 +222,17 @@ pub fn write(book: &LBook, fmt: Fmt, rng: &mut Rng) -> Vec<u8> {
             for s in &book.sheets {
                 let mut rows: Vec<odsw::RowRun> = vec![];
                 let mut next_row = 0u32;
-                let mut by_row: BTreeMap<u32, Vec<(u32, &V)>> = BTreeMap::new();
+                let mut by_row: BTreeMap<u32, Vec<(u32, Option<&V>)>> = BTreeMap::new();
                 for ((r, c), v) in &s.cells {
-                    by_row.entry(*r).or_default().push((*c, v));
+                    by_row.entry(*r).or_default().push((*c, Some(v)));
+                }
+                for (r, c) in &s.blanks {
+                    if !s.cells.contains_key(&(*r, *c)) {
+                        by_row.entry(*r).or_default().push((*c, None));
+                    }
+                }
+                for row in by_row.values_mut() {
+                    row.sort_by_key(|x| x.0);
                 }
                 for (r, cells) in by_row {
                     if r > next_row {
@@ -217,6 +244,11 @@ pub fn write(book: &LBook, fmt: Fmt, rng: &mut Rng) -> Vec<u8> {
                         if c > next_col {
                             row.push(odsw::OdsCell::empty_run((c - next_col) as usize));
                         }
+                        let Some(v) = v else {
+                            row.push(odsw::OdsCell::empty());
+                            next_col = c + 1;
+                            continue;
+                        };
                         let mut cell = odsw::OdsCell::new(match v {
                             V::Num(f) => odsw::OdsVal::Float(*f),
                             V::Str(t) => odsw::OdsVal::Str(t.clone()),
@@ -293,6 +325,16 @@ pub fn gen_sheet_at(rng: &mut Rng, name: &str, max_cells: u64, (r0, c0, h, w): (
         let r = r0 + rng.below(h as u64) as u32;
         let c = c0 + rng.below(w as u64) as u32;
         s.cells.insert((r, c), gen_value(rng));
+    }
+    // blank (styled, valueless) cells inside the window: on data rows, on gap rows, above the first and below the
+    // last data row — a row may hold nothing but blanks
+    if rng.chance(1, 3) {
+        for _ in 0..rng.range(1, 8) {
+            let p = (r0 + rng.below(h as u64) as u32, c0 + rng.below(w as u64) as u32);
+            if !s.cells.contains_key(&p) {
+                s.blanks.insert(p);
+            }
+        }
     }
     s
 }
